@@ -70,6 +70,24 @@ package app
 //@ pred vuWf(v) := typeis(v.PubKey.Sum, "*crypto.PublicKey_Ed25519") && vuKeyPtr(v) != nil
 //@ pred vuKey(v) := content(vuKeyPtr(v).Ed25519)
 //@
+//@ // C12 (genesis): the power map of a validator list. Succeeds iff every entry carries a 32-byte ed25519 key; then
+//@ // the map's keys are exactly the listed keys, and an entry whose key occurs once carries that entry's power
+//@ // (powers of a repeated key add up in int64 - not restated as a sum). A-proto: no typed-nil oneof wrapper.
+//@ pred vuProto(v) := typeis(v.PubKey.Sum, "*crypto.PublicKey_Ed25519") ==> vuKeyPtr(v) != nil
+//@ pred vuGood(v) := vuWf(v) && len(vuKeyPtr(v).Ed25519) == 32 && vuKeyPtr(v).Ed25519 != nil
+//@ pred vuStr(v) := bytes_str(vuKey(v))
+//@ func MakePowermap
+//@   requires forall i :: 0 <= i && i < len(validators) ==> vuProto(validators[i])
+//@   ensures ret0 != nil && fresh(ret0)
+//@   ensures ret1 == nil <==> (forall i :: 0 <= i && i < len(validators) ==> vuGood(validators[i]))
+//@   ensures ret1 == nil ==> (forall i :: 0 <= i && i < len(validators) ==> has(ret0, vuStr(validators[i])))
+//@   ensures forall p Str :: has(ret0, p) ==> (exists i :: 0 <= i && i < len(validators) && vuGood(validators[i]) && vuStr(validators[i]) == p)
+//@   ensures ret1 == nil ==> (forall i :: (0 <= i && i < len(validators) && (forall j :: (0 <= j && j < len(validators) && j != i) ==> vuStr(validators[j]) != vuStr(validators[i]))) ==> ret0[vuStr(validators[i])] == validators[i].Power)
+//@   invariant res != nil && fresh(res)
+//@   invariant forall j :: 0 <= j && j <= rangeindex ==> (vuGood(validators[j]) && has(res, vuStr(validators[j])))
+//@   invariant forall p Str :: has(res, p) ==> (exists j :: 0 <= j && j <= rangeindex && vuStr(validators[j]) == p)
+//@   invariant forall i :: (0 <= i && i <= rangeindex && (forall j :: (0 <= j && j <= rangeindex && j != i) ==> vuStr(validators[j]) != vuStr(validators[i]))) ==> res[vuStr(validators[i])] == validators[i].Power
+//@
 //@ // A-sort: sort.Slice with this comparison yields a permutation (sortPerm with inverse sortInv, one pair
 //@ // of functions per call) ordered by key bytes
 //@ ufn sortPerm(Int, Int) Int
@@ -447,7 +465,7 @@ package app
 //@ // handler anyway). Genesis decoding (amino) is an unmodelled call; log.Fatal is treated as returning, i.e. the
 //@ // invariant is shown even on the paths on which the process would in fact exit.
 //@ func (*ShutterApp).InitChain
-//@   requires appInv(app) && (forall e :: !has(app.DKGMap, e))
+//@   requires appInv(app) && (forall e :: !has(app.DKGMap, e)) && (forall i :: 0 <= i && i < len(req.Validators) ==> vuProto(req.Validators[i]))
 //@   assigns app.ShutterApp.ForkHeights, app.ForkHeights.CheckInUpdateNew, app.ForkHeights.CheckInUpdate, app.ShutterApp.Validators, app.ShutterApp.Configs, app.ShutterApp.EONCounter, app.ShutterApp.CheckTxState, app.ShutterApp.ChainID
 //@   ensures appCfgInv(app) && len(app.Configs) >= 1
 //@   ensures app.DKGMap != nil && (forall e :: !has(app.DKGMap, e))
